@@ -16,13 +16,17 @@
       is visited, in order; a body is visited statement by statement;
     * `C01_call_recorded`: an ordinary call is recorded and all its arguments are visited;
     * `C01_unnameable_base_visited`: `(e).a` with an unnameable `e` visits `e`.
-    * `C01_partial`: the full lower bound on the fragment "generic nodes over pure chains".
+    * `C01_partial`: the full lower bound on the fragment "generic nodes over pure chains";
+    * `C01_partial_calls` / `_assign` / `_flow`: the lower bound (given success, and no custom
+      analyser hit) on the fragment extended by ordinary calls, then assignments (including the
+      class-instance diversion), then `del` / `for` / `with` / comprehensions / `return`.
   Not proved: the lower bound over a fragment that also contains calls, assignments, loops, …
   (`C01_partial` of DESIGN §5 with the complete `dropped` table); the per-constructor facts
   above are its leaves.
 -/
 import RattrProofs.Lemmas.Visit
 import RattrProofs.Lemmas.VisitSpec
+import RattrProofs.Lemmas.VisitCover
 
 namespace Rattr.C01
 open Rattr Rattr.FnA Rattr.Strs Rattr.AccessSpec
@@ -120,6 +124,44 @@ theorem C01_partial (env : Env) (mn : Str) (root : Context) (ps : Params) (body 
     simp only [present, List.any_eq_true]
     exact ⟨⟨nme, b⟩, this, by simp⟩
   · exact absurd rfl (g.nocall _ ha)
+
+/-! ### wider fragments (shape of `C01_full`: IF the analysis succeeds THEN everything is present)
+
+`frag F` (Lemmas/VisitCover.lean) extends the fragment of `C01_partial` feature by feature. The
+hypothesis `NoPlugins env mn` says that no call hits a custom analyser (the calls that do are
+exactly the getattr-family / sorted / defaultdict findings `C01_cex_xattr_*`, `C01_cex_sorted`,
+`C01_cex_defaultdict`). Success is assumed, not proved: spelling a call ARGUMENT can crash the old
+namer (property C07). -/
+
+/-- (a) + ordinary calls: callee a pure chain not rooted at a getattr-family builtin, arguments
+and keyword values in the fragment — the call record and every access in the arguments. -/
+theorem C01_partial_calls (env : Env) (mn : Str) (root : Context) (ps : Params) (body : List Node)
+    (s' : St) (hno : NoPlugins env mn) (hb : fragL ⟨true, false, false⟩ body = true)
+    (h : analyse env mn root ps body = .ok s') : ∀ a ∈ accessesL body, present a s' = true :=
+  analyse_cover hno hb h
+
+/-- (b) + assignments: `=` (any number of Store-chain / display targets), `op=`, annotated
+assignments; the value is not a lambda / `namedtuple` declaration (for annotated assignments also
+not a call / tuple / list: `C01_cex_annotation_class_assignment`). The class-instance diversion
+`x = Cls(…)` IS covered: target, call record and arguments are all reported. -/
+theorem C01_partial_assign (env : Env) (mn : Str) (root : Context) (ps : Params) (body : List Node)
+    (s' : St) (hno : NoPlugins env mn) (hb : fragL ⟨true, true, false⟩ body = true)
+    (h : analyse env mn root ps body = .ok s') : ∀ a ∈ accessesL body, present a s' = true :=
+  analyse_cover hno hb h
+
+/-- (c) + control flow: `del`, `for` (target, iterable, body, else), `with` (items, body),
+comprehensions (generators, conditions, element), `return` (incl. returned tuples / dicts and
+returned class instances). -/
+theorem C01_partial_flow (env : Env) (mn : Str) (root : Context) (ps : Params) (body : List Node)
+    (s' : St) (hno : NoPlugins env mn) (hb : fragL ⟨true, true, true⟩ body = true)
+    (h : analyse env mn root ps body = .ok s') : ∀ a ∈ accessesL body, present a s' = true :=
+  analyse_cover hno hb h
+
+/-- the same for any sub-tree of the fragment, from any state (with monotonicity bundled). -/
+theorem C01_partial_visit (env : Env) (mn : Str) (F : Feat) (hno : NoPlugins env mn) (n : Node)
+    (hn : frag F n = true) (s s' : St) (h : visit env mn n s = .ok s') :
+    IrLe s s' ∧ ∀ a ∈ accesses false n, present a s' = true :=
+  ⟨((visit_cvm env mn F hno n hn s).mono s' h).ir, (visit_cvm env mn F hno n hn s).cov s' h⟩
 
 /-- an ordinary call (its target has no custom analyser, its naming succeeds): a record named
 `without_call_brackets(fullname)` is added, then all positional arguments and all keyword values
@@ -356,6 +398,36 @@ example : getsOf (visitList env0 (S "m") [expr (nm "a")] (analyseInit root0 (P [
 example : simpleL [.other (S "If") [.other (S "Compare") [subs (att (nm "a") "b") .const, .starred (nm "c") .load],
     expr (.seq (S "Tuple") [att (nm "x") "y", .dict [nm "k"] [att (nm "v") "w"]] .load)]] = true := by
   decide
+
+/-- an environment without custom analysers satisfies `NoPlugins`. -/
+def envNP : Env := { env0 with analysers := [] }
+example : NoPlugins envNP (S "m") := noPlugins_of_empty _ _ rfl
+
+/-- `x = f(a.b, k=c.d); z: t.T = a; for i in xs: y += g(i)
+    with o.p(q) as w: del w.v; r = [e.f for e in es if e.g]; return Cls(x), h(y)` -/
+def bodyWide : List Node :=
+  [.assign [nm "x" .store] (callKw (nm "f") [att (nm "a") "b"] "k" (att (nm "c") "d")),
+   .annAssign (nm "z" .store) (att (nm "t") "T") [nm "a"],
+   .forLoop (nm "i" .store) (nm "xs") [.augAssign (nm "y" .store) (call (nm "g") [nm "i"])] [],
+   .withStmt [.withitem (call (att (nm "o") "p") [nm "q"]) [nm "w" .store]]
+     [.delete [att (nm "w") "v" .del]],
+   .assign [nm "r" .store] (.comp (S "ListComp") [att (nm "e") "f"]
+     [.gen (nm "e" .store) (nm "es") [att (nm "e") "g"]]),
+   .ret [.seq (S "Tuple") [call (nm "Cls") [nm "x"], call (nm "h") [nm "y"]] .load]]
+
+/-- `C01_partial_flow` is not vacuous: `bodyWide` is in the full fragment, its analysis (no custom
+analysers; `Cls` a class: the class-instance `return` path is taken) succeeds, and — as the theorem
+says — all 25 accesses of the spec are present. -/
+example : fragL ⟨true, true, true⟩ bodyWide = true ∧
+    (accessesL bodyWide).length = 25 ∧
+    (accessesL bodyWide).all (fun a =>
+      presentR a (analyse envNP (S "m") root0
+        (P ["a", "c", "t", "xs", "y", "o", "q", "es"]) bodyWide)) = true := by decide +kernel
+
+/-- the smaller fragments are inhabited too. -/
+example : fragL ⟨true, false, false⟩ [expr (callKw (att (nm "a") "m") [att (nm "b") "c"] "k" (nm "d"))] = true ∧
+    fragL ⟨true, true, false⟩ [.assign [nm "x" .store, .seq (S "Tuple") [nm "p" .store, nm "q" .store] .store]
+      (call (nm "Cls") [nm "b"])] = true := by decide
 
 /-- `C01_unnameable_base_visited` on `(a + b).x`. -/
 example : (binOp (nm "a") (nm "b")).isNameable = false := rfl
